@@ -59,7 +59,7 @@ pub fn covers(s: &Setup, r: &AllocResult<KEdge>) {
     kani::cover!(s.cache.adds.get() > 0 && r.is_ok(), "non-terminal path with cache insertion");
     kani::cover!(s.cache.hits.get() >= 2, "oracle consulted for both cofactors");
     kani::cover!(s.created.get() > 0, "node created");
-    kani::cover!(s.x.tlen.get() > s.x.tinit, "terminal created");
+    kani::cover!(s.x.tlen.get() > s.x.tinit, "opt: terminal created");
     kani::cover!(r.is_err(), "out-of-memory path");
 }
 
@@ -86,21 +86,28 @@ macro_rules! mstep_bin {
         }
     };
 }
-mstep_bin!(step_add, add_edge, MTBDDOp::Add, 3);
-mstep_bin!(step_sub, sub_edge, MTBDDOp::Sub, 3);
-mstep_bin!(step_mul, mul_edge, MTBDDOp::Mul, 3);
-mstep_bin!(step_div, div_edge, MTBDDOp::Div, 3);
-mstep_bin!(step_min, min_edge, MTBDDOp::Min, 3);
-mstep_bin!(step_max, max_edge, MTBDDOp::Max, 3);
+mstep_bin!(step_add, add_edge, MTBDDOp::Add, 2);
+mstep_bin!(step_sub, sub_edge, MTBDDOp::Sub, 2);
+mstep_bin!(step_mul, mul_edge, MTBDDOp::Mul, 2);
+mstep_bin!(step_div, div_edge, MTBDDOp::Div, 2);
+mstep_bin!(step_min, min_edge, MTBDDOp::Min, 2);
+mstep_bin!(step_max, max_edge, MTBDDOp::Max, 2);
+mstep_bin!(step_add_n3, add_edge, MTBDDOp::Add, 3);
+mstep_bin!(step_sub_n3, sub_edge, MTBDDOp::Sub, 3);
+mstep_bin!(step_mul_n3, mul_edge, MTBDDOp::Mul, 3);
+mstep_bin!(step_div_n3, div_edge, MTBDDOp::Div, 3);
+mstep_bin!(step_min_n3, min_edge, MTBDDOp::Min, 3);
+mstep_bin!(step_max_n3, max_edge, MTBDDOp::Max, 3);
 
 #[kani::proof]
 #[kani::unwind(3)]
 fn step_ite() {
-    let mut s = setup_m(RANK_ITE, 3, &[MTBDDOp::Ite]);
+    let mut s = setup_m(RANK_ITE, 2, &[MTBDDOp::Ite]);
     let f = sym::any_edge(&s, s.init_c.get());
     let g = sym::any_edge(&s, s.init_c.get());
     let h = sym::any_edge(&s, s.init_c.get());
     kani::assume(is_01(&s, &f));
+    s.cache.miss_arity = 3;
     s.cache.top_level = s.min_level(&[f.borrowed(), g.borrowed(), h.borrowed()]);
     let w = |a: usize| if val_at(&s, &f, a).is_zero() { val_at(&s, &h, a) } else { val_at(&s, &g, a) };
     let want = [w(0), w(1), w(2), w(3)];
